@@ -79,6 +79,7 @@ package dns
 //@ func packDataAplPrefix [C01 C08 C16]
 //@   opt no-safety
 //@   requires 0 <= off
+//@   exit upper: ret1 == nil ==> ret0 - off <= 4 + (prefix + 7) / 8 && prefix == callres("Size", 0) [C08]
 //@   ensures mono: ret1 == nil ==> off <= ret0
 //@   ensures rng: ret1 == nil && off <= len(msg) ==> ret0 <= len(msg)
 //@   writes msg
